@@ -137,21 +137,23 @@ Definition same_off (c : N) (st st' : pstate) : Prop :=
   map fst (canv st') = map fst (canv st) /\
   (forall k, k <> c -> cur st' k = cur st k) /\
   npages st' = npages st /\ closed st' = closed st /\
-  (forall f, mem f (fonts st) = true -> mem f (fonts st') = true).
+  (forall k f, pmem k f (fonts st) = true -> pmem k f (fonts st') = true) /\
+  pending st' = pending st.
 
 (* ... and the OnNewStack depth of c is the same *)
 Definition same_but (c : N) (st st' : pstate) : Prop :=
   same_off c st st' /\ depth (cur st' c) = depth (cur st c).
 
 Lemma same_off_refl : forall c st, same_off c st st.
-Proof. intros c st. repeat split. intros f Hf. exact Hf. Qed.
+Proof. intros c st. repeat split. intros k f Hf. exact Hf. Qed.
 
 Lemma same_off_trans : forall c a b d, same_off c a b -> same_off c b d -> same_off c a d.
 Proof.
-  intros c a b d [Hk1 [Ho1 [Hn1 [Hc1 Hf1]]]] [Hk2 [Ho2 [Hn2 [Hc2 Hf2]]]].
+  intros c a b d [Hk1 [Ho1 [Hn1 [Hc1 [Hf1 Hp1]]]]] [Hk2 [Ho2 [Hn2 [Hc2 [Hf2 Hp2]]]]].
   split; [congruence|]. split.
   - intros k Hne. rewrite (Ho2 k Hne). apply Ho1. exact Hne.
-  - split; [congruence|]. split; [congruence|]. intros f Hf. apply Hf2. apply Hf1. exact Hf.
+  - split; [congruence|]. split; [congruence|]. split; [|congruence].
+    intros k f Hf. apply Hf2. apply Hf1. exact Hf.
 Qed.
 
 Lemma same_but_refl : forall c st, same_but c st st.
@@ -167,8 +169,11 @@ Proof.
   intros c st f. split; [|split].
   - unfold on. cbn [canv]. apply update_keys.
   - intros k Hne. apply cur_on_other. intros Heq. apply Hne. symmetry. exact Heq.
-  - repeat split. intros g Hg. exact Hg.
+  - repeat split. intros k g Hg. exact Hg.
 Qed.
+
+Lemma same_but_mark : forall c st k, same_but c st (mark st k).
+Proof. intros c st k. split; [|reflexivity]. repeat split. intros j g Hg. exact Hg. Qed.
 
 Lemma keys_lookup : forall (l l' : list (N * cstate)) k,
   map fst l' = map fst l -> (lookup k l' = None <-> lookup k l = None).
@@ -197,9 +202,12 @@ Proof. intros c st st' [[_ [_ [Hn _]]] _]. exact Hn. Qed.
 Lemma same_but_closed : forall c st st', same_but c st st' -> closed st' = closed st.
 Proof. intros c st st' [[_ [_ [_ [Hc _]]]] _]. exact Hc. Qed.
 
-Lemma same_but_fonts : forall c st st' f, same_but c st st' ->
-  mem f (fonts st) = true -> mem f (fonts st') = true.
-Proof. intros c st st' f [[_ [_ [_ [_ Hf]]]] _]. apply Hf. Qed.
+Lemma same_but_fonts : forall c st st' k f, same_but c st st' ->
+  pmem k f (fonts st) = true -> pmem k f (fonts st') = true.
+Proof. intros c st st' k f [[_ [_ [_ [_ [Hf _]]]]] _]. apply Hf. Qed.
+
+Lemma same_but_pending : forall c st st', same_but c st st' -> pending st' = pending st.
+Proof. intros c st st' [[_ [_ [_ [_ [_ Hp]]]]] _]. exact Hp. Qed.
 
 Lemma cur_on_exists : forall st c f,
   lookup c (canv st) <> None -> cur (on st c f) c = f (cur st c).
@@ -378,9 +386,9 @@ Proof.
         destruct (6 <=? op) eqn:E; [|reflexivity].
         apply N.leb_le in E. apply N.ltb_lt in Hop. lia.
       - eapply same_but_exists; eassumption. }
-    rewrite run_cons_ok by exact Hg. cbn [run effect]. exists (on st2 c fpaint).
+    rewrite run_cons_ok by exact Hg. cbn [run effect]. exists (mark (on st2 c fpaint) c).
     split; [reflexivity|]. eapply same_but_trans; [exact Hsb2|].
-    apply same_but_on_keep. reflexivity.
+    eapply same_but_trans; [apply (same_but_on_keep c st2 fpaint); reflexivity | apply same_but_mark].
   - (* PClipPath *)
     cbn [prog_ok] in Hok. cbn [emit_prog].
     destruct (path_accepted c f r st [CClip c eo] Hok Hex) as [st2 [Hrun [Hsb2 Hp2]]].
@@ -415,20 +423,22 @@ Proof.
     cbn [emit_prog].
     assert (Hg : guard st (CAddFont c f) = 0) by (apply guard_on_canvas with c; try reflexivity; exact Hex).
     rewrite run_cons_ok by exact Hg. cbn [effect].
-    set (st1 := mkp (canv st) (f :: fonts st) (npages st) (closed st)).
+    set (st1 := mkp (canv st) ((c, f) :: fonts st) (npages st) (closed st) (pending st) (dirty st)).
     assert (Hg1 : guard st1 (CDrawText c [f] (K 5)) = 0).
     { apply guard_on_canvas with c; try reflexivity; [|exact Hex].
-      cbn [guard_kind forallb]. unfold st1. cbn [fonts]. unfold mem. cbn [existsb].
-      rewrite N.eqb_refl. reflexivity. }
-    rewrite run_cons_ok by exact Hg1. cbn [run effect]. exists st1.
+      cbn [guard_kind forallb]. unfold st1. cbn [fonts]. unfold pmem. cbn [existsb fst snd].
+      rewrite !N.eqb_refl. reflexivity. }
+    rewrite run_cons_ok by exact Hg1. cbn [run effect]. exists (mark st1 c).
     split; [reflexivity|]. split; [|reflexivity].
     split; [reflexivity|]. split; [intros k _; reflexivity|].
-    split; [reflexivity|]. split; [reflexivity|].
-    intros g Hm. unfold st1. cbn [fonts]. unfold mem in *. cbn [existsb]. rewrite Hm.
+    split; [reflexivity|]. split; [reflexivity|]. split; [|reflexivity].
+    intros k g Hm. unfold st1, mark. cbn [fonts]. unfold pmem in *. cbn [existsb]. rewrite Hm.
     apply orb_true_r.
   - (* PImage *)
-    exists st. cbn [emit_prog]. rewrite (run_plain c) by (try reflexivity; exact Hex).
-    split; [reflexivity | apply same_but_refl].
+    cbn [emit_prog].
+    assert (Hg : guard st (CDrawImage c (K 2)) = 0) by (apply guard_on_canvas with c; try reflexivity; exact Hex).
+    rewrite run_cons_ok by exact Hg. cbn [run effect]. exists (mark st c).
+    split; [reflexivity | apply same_but_mark].
 Qed.
 
 Theorem prog_fragment_accepted : forall c p st,
@@ -469,13 +479,14 @@ Theorem page_calls_accepted : forall c links progs st,
     depth (cur st' c) = 0 /\
     (forall k, k <> c -> cur st' k = cur st k) /\
     closed st' = false /\ npages st' = npages st + 1 /\
-    (forall f, mem f (fonts st) = true -> mem f (fonts st') = true).
+    (forall k f, pmem k f (fonts st) = true -> pmem k f (fonts st') = true) /\
+    pending st' = pending st.
 Proof.
   intros c links progs st Hok Hnone Hcl. unfold page_calls, page_paint_calls. cbn [app].
   assert (Hg : guard st (CAddPage c (K 4)) = 0).
   { apply guard_zero_intro; try reflexivity. cbn [guard_kind]. rewrite Hcl, Hnone. reflexivity. }
   rewrite run_cons_ok by exact Hg. cbn [effect]. rewrite Hnone.
-  set (st1 := mkp ((c, fresh) :: canv st) (fonts st) (npages st + 1) (closed st)).
+  set (st1 := mkp ((c, fresh) :: canv st) (fonts st) (npages st + 1) (closed st) (pending st) (dirty st)).
   assert (Hl1 : lookup c (canv st1) = Some fresh).
   { unfold st1. cbn [canv lookup]. rewrite N.eqb_refl. reflexivity. }
   assert (Hex1 : lookup c (canv st1) <> None) by (rewrite Hl1; discriminate).
@@ -499,7 +510,7 @@ Proof.
   assert (Hex4 : lookup c (canv st4) <> None) by (apply on_exists; exact Hex3).
   rewrite run_links by exact Hex4.
   rewrite !(run_plain c) by (try reflexivity; exact Hex4). cbn [run].
-  exists st4. split; [reflexivity|]. split; [|split; [|split; [|split; [|split]]]].
+  exists st4. split; [reflexivity|]. split; [|split; [|split; [|split; [|split; [|split]]]]].
   - unfold st4, on. cbn [canv]. rewrite update_keys. rewrite (same_but_keys _ _ _ Hsb3).
     unfold st2, on. cbn [canv]. rewrite update_keys. reflexivity.
   - unfold st4. rewrite cur_on_exists by exact Hex3. unfold fpop. cbn [depth]. rewrite Hd3. reflexivity.
@@ -511,8 +522,9 @@ Proof.
     unfold st1. apply cur_add. exact Hnone.
   - change (closed st4) with (closed st3). rewrite (same_but_closed _ _ _ Hsb3). exact Hcl.
   - change (npages st4) with (npages st3). rewrite (same_but_npages _ _ _ Hsb3). reflexivity.
-  - intros f Hm. change (fonts st4) with (fonts st3).
-    apply (same_but_fonts _ _ _ f Hsb3). exact Hm.
+  - intros k f Hm. change (fonts st4) with (fonts st3).
+    apply (same_but_fonts _ _ _ k f Hsb3). exact Hm.
+  - change (pending st4) with (pending st3). rewrite (same_but_pending _ _ _ Hsb3). reflexivity.
 Qed.
 
 Definition all_zero (st : pstate) : Prop := forall k, depth (cur st k) = 0.
@@ -537,7 +549,8 @@ Lemma pages_loop : forall pages st,
     run st (flat_map (fun p => page_calls (w_canvas p) (w_links p) (w_paint p)) pages) = Some st' /\
     closed st' = false /\ NoDup (map fst (canv st')) /\ all_zero st' /\
     npages st' = npages st + N.of_nat (length pages) /\
-    map fst (canv st') = rev (map w_canvas pages) ++ map fst (canv st).
+    map fst (canv st') = rev (map w_canvas pages) ++ map fst (canv st) /\
+    pending st' = pending st.
 Proof.
   induction pages as [|p pages IH]; intros st Hcl Hnd Hz Hndp Hfresh Hpaint.
   - exists st. cbn [flat_map length rev map app]. repeat split; try assumption. lia.
@@ -546,10 +559,10 @@ Proof.
     assert (Hnone : lookup (w_canvas p) (canv st) = None).
     { apply lookup_none_keys. apply Hfresh. left. reflexivity. }
     destruct (page_calls_accepted (w_canvas p) (w_links p) progs st Hok Hnone Hcl)
-      as [st1 [Hrun1 [Hk1 [Hd1 [Ho1 [Hcl1 [Hn1 _]]]]]]].
+      as [st1 [Hrun1 [Hk1 [Hd1 [Ho1 [Hcl1 [Hn1 [_ Hpe1]]]]]]]].
     rewrite Hrun1.
     cbn [map] in Hndp. inversion Hndp as [|c0 l0 Hnotin Hndp']. subst c0 l0.
-    destruct (IH st1) as [st' [Hrun' [Hcl' [Hnd' [Hz' [Hn' Hk']]]]]].
+    destruct (IH st1) as [st' [Hrun' [Hcl' [Hnd' [Hz' [Hn' [Hk' Hpe']]]]]]].
     + exact Hcl1.
     + rewrite Hk1. constructor; [apply Hfresh; left; reflexivity | exact Hnd].
     + intros k. destruct (N.eq_dec k (w_canvas p)) as [Heq|Hne].
@@ -561,22 +574,23 @@ Proof.
       * apply (Hfresh q); [right; exact Hq | exact Hin].
     + intros q Hq. apply Hpaint. right. exact Hq.
     + exists st'. split; [exact Hrun'|]. split; [exact Hcl'|]. split; [exact Hnd'|].
-      split; [exact Hz'|]. split.
+      split; [exact Hz'|]. split; [|split].
       * rewrite Hn', Hn1. cbn [length]. lia.
       * rewrite Hk', Hk1. cbn [map rev]. rewrite <- app_assoc. reflexivity.
+      * congruence.
 Qed.
 
 Definition is_doc (x : call) : Prop := exists k n, x = CDoc k (K n).
 
 Lemma run_docs : forall l st, Forall is_doc l ->
-  exists st', run st l = Some st' /\ canv st' = canv st /\ npages st' = npages st.
+  exists st', run st l = Some st' /\ canv st' = canv st /\ npages st' = npages st /\ pending st' = pending st.
 Proof.
   induction l as [|x l IH]; intros st HF.
   - exists st. repeat split.
   - inversion HF as [|x0 l0 Hx HF']. subst x0 l0. destruct Hx as [k [n Hx]]. subst x.
     rewrite run_cons_ok by reflexivity. cbn [effect].
-    destruct (IH (mkp (canv st) (fonts st) (npages st) true) HF') as [st' [Hrun [Hc Hn]]].
-    exists st'. split; [exact Hrun|]. split; [exact Hc | exact Hn].
+    destruct (IH (mkp (canv st) (fonts st) (npages st) true (pending st) (dirty st)) HF') as [st' [Hrun [Hc [Hn Hp]]]].
+    exists st'. split; [exact Hrun|]. split; [exact Hc|]. split; [exact Hn | exact Hp].
 Qed.
 
 Lemma trailer_docs : forall na nb, Forall is_doc (trailer_calls na nb).
@@ -590,11 +604,11 @@ Qed.
 Lemma write_calls_run : forall nembed pages na nb,
   NoDup (map w_canvas pages) -> (forall p, In p pages -> paint_ok p) ->
   exists st, run pinit (write_calls nembed pages na nb) = Some st /\
-    balanced st = true /\ npages st = N.of_nat (length pages) /\
+    balanced st && complete st = true /\ npages st = N.of_nat (length pages) /\
     map fst (canv st) = rev (map w_canvas pages).
 Proof.
   intros nembed pages na nb Hnd Hpaint. unfold write_calls. rewrite run_embed, run_app.
-  destruct (pages_loop pages pinit) as [st1 [Hrun1 [_ [Hnd1 [Hz1 [Hn1 Hk1]]]]]].
+  destruct (pages_loop pages pinit) as [st1 [Hrun1 [_ [Hnd1 [Hz1 [Hn1 [Hk1 Hpe1]]]]]]].
   - reflexivity.
   - constructor.
   - intros k. reflexivity.
@@ -602,9 +616,11 @@ Proof.
   - intros p _ Hin. exact Hin.
   - exact Hpaint.
   - rewrite Hrun1.
-    destruct (run_docs (trailer_calls na nb) st1 (trailer_docs na nb)) as [st2 [Hrun2 [Hc2 Hn2]]].
+    destruct (run_docs (trailer_calls na nb) st1 (trailer_docs na nb)) as [st2 [Hrun2 [Hc2 [Hn2 Hpe2]]]].
     exists st2. split; [exact Hrun2|]. split; [|split].
-    + unfold balanced. rewrite Hc2. apply all_zero_balanced; assumption.
+    + apply andb_true_iff. split.
+      * unfold balanced. rewrite Hc2. apply all_zero_balanced; assumption.
+      * unfold complete, orphans. rewrite Hpe2, Hpe1. reflexivity.
     + rewrite Hn2, Hn1. cbn [pinit npages]. lia.
     + rewrite Hc2, Hk1. cbn [pinit canv map]. apply app_nil_r.
 Qed.
